@@ -70,9 +70,9 @@ def make_world(rng):
     targets = sorted({rng.randrange(0x1000, 0x6000) for _ in range(5)} | {0x10, 0x4040})
     # where a user keeps things: sub-directories, spaces, non-ASCII (the suffixes .s/.o are kept: the
     # harness tells listings from objects by them)
-    d_in = rng.choice(["", "", "inputs/sub dir/", "d\u00e9p\u00f4t/"])
-    d_rules = rng.choice(["", "my rules/", "r/u/l/"])
-    d_mac = rng.choice(["", "", "mac ros/"])
+    d_in = rng.choice(["", "", "inputs/sub dir/", "d\u00e9p\u00f4t/", "~/", "$HOME/in/"])
+    d_rules = rng.choice(["", "my rules/", "r/u/l/", "~/rules/", "$HOME/"])
+    d_mac = rng.choice(["", "", "mac ros/", "~/"])
     listings = []
     for i in range(rng.randrange(2, 4)):
         text, _ins = gen.gen_listing(rng, n=rng.randrange(10, 40), branch_targets=targets)
@@ -331,6 +331,8 @@ def _match_op(rng, entry, inputs_asm, inputs_bin, mode=None, input_override=None
     op = {"op": "match", "rule": entry["rel"], "input": inp, "type": typ, "ret": ret, "search": search, "only_addr": only,
           "macros": list(entry["macros"]) if entry.get("macros") else None,
           "_tag": f"{entry['family']}:{entry['variant']}:{typ}:{ret}/{search}{'/addr' if only else ''}"}
+    if rng.random() < 0.5:
+        op["hold_object"] = True  # the caller keeps the MasterOfPuppets object in a variable until the next one replaces it
     return op
 
 
@@ -364,10 +366,20 @@ def make_history(rng, world, with_faults):
         if ops and r < 0.12:
             prev = [o for o in ops if o["op"] == "match"]
             if prev:
+                if rng.random() < 0.35 and ops[-1]["op"] == "match" and not ops[-1].get("faults") and not ops[-1].get("compile_only"):
+                    # match again on the object the caller still holds (immediately: nothing else ran in between)
+                    ops[-1]["hold_object"] = True
+                    again = copy.deepcopy(ops[-1])
+                    again["rematch"] = True
+                    again["_tag"] = "rematch:" + again["_tag"]
+                    ops.append(again)
+                    continue
                 orig = rng.choice(prev[-3:])
                 if rng.random() < 0.6 and not orig.get("faults") and not orig.get("compile_only"):
                     orig["reuse_config"] = True  # the caller keeps and re-uses its MatchConfig object
-                ops.append(copy.deepcopy(orig))
+                rep = copy.deepcopy(orig)
+                rep.pop("rematch", None)
+                ops.append(rep)
                 continue
         if use_writes and r < 0.25:
             ops.append(_write_op(rng, files, pool, listings, binaries, macro_files, focus, byfam))
